@@ -29,7 +29,7 @@ REJECT_STATUSES = ("ERROR_INVALID_VALUE", "ERROR_OUT_OF_MEMORY", "ERROR_INVALID_
 class Run:
     """One write_config() call against a config store."""
 
-    def __init__(self, version, current, overrides, reject):
+    def __init__(self, version, current, overrides, reject, first=None):
         import bellows.types as t
 
         self.t = t
@@ -66,6 +66,15 @@ class Run:
             return [ok if acc else t.EzspStatus[self.reject[name]]]
 
         self.ncp.handlers.update(getConfigurationValue=get_cfg, setConfigurationValue=set_cfg, getValue=get_val, setValue=set_val)
+        if first is not None:
+            # an earlier configuration write on the SAME EZSP object (e.g. before a reset), with other overrides; the NCP's values
+            # are then put back, so that the write under test can be compared with the same write on a fresh object
+            t0 = self.loop.create_task(self.ezsp.write_config(dict(first)))
+            self.loop.run_until_idle(horizon=600.0)
+            if not t0.done():
+                t0.cancel()
+            self.sets.clear()
+            self.current = dict(current)
         self.task = self.loop.create_task(self.ezsp.write_config(dict(overrides)))
         self.loop.run_until_idle(horizon=600.0)
         self.exc = None
@@ -180,6 +189,26 @@ def run_version(args):
                 overrides = {} if ov == "absent" else {name: ov}
                 for rej in ({},) + tuple({name: st} for st in REJECT_STATUSES):
                     one({name: cur}, overrides, rej, f"{name}: current {cur_label}, override {ov_label}, {list(rej.values()) or 'accept'}")
+    # history independence: the same write after an earlier write with other overrides on the same EZSP object
+    for name in [n for n in names if n in CAPACITY][:6] + [BUFFER]:
+        if name not in names:
+            continue
+        ref = libval.get(name, 8)
+        lo = valid_value(sch, name, [max(ref - 1, 1), 1, ref])
+        for first in ({name: lo}, {name: None}):
+            if first[name] is None or lo is not None:
+                for second in ({}, {name: valid_value(sch, name, [ref + 3, ref])}):
+                    cur = {name: ref + 40}
+                    stats["runs"] += 1
+                    fresh = Run(version, cur, second, {})
+                    again = Run(version, cur, second, {}, first=first)
+                    a = [(x[0], x[1], x[2]) for x in again.sets]
+                    b = [(x[0], x[1], x[2]) for x in fresh.sets]
+                    if again.hung or again.exc is not None or a != b:
+                        diff = [x for x in a if x not in b][:3] + [("missing",) + x for x in b if x not in a][:3]
+                        viol.append((f"C16|history|{'disabled' if first[name] is None else 'set'}-then-{'default' if not second else 'override'}",
+                                     f"v{version}: write_config({second}) after an earlier write_config({first}) on the same EZSP object differs from the same call on a fresh "
+                                     f"object: {again.exc!r} {diff}", {"version": version, "current": cur, "overrides": second, "reject": {}, "first": first}))
     # pairs over interesting settings
     interesting = [n for n in (BUFFER, "CONFIG_KEY_TABLE_SIZE", "CONFIG_BINDING_TABLE_SIZE", "CONFIG_MULTICAST_TABLE_SIZE",
                                "CONFIG_SECURITY_LEVEL", "CONFIG_NEIGHBOR_TABLE_SIZE") if n in names]
@@ -241,6 +270,13 @@ def main(tier: str) -> int:
 
 def replay(data) -> int:
     cur = {k: v for k, v in data["current"].items()}
+    if data.get("first") is not None:
+        fresh = Run(data["version"], cur, data["overrides"], {})
+        again = Run(data["version"], cur, data["overrides"], {}, first=data["first"])
+        a, b = [x[:3] for x in again.sets], [x[:3] for x in fresh.sets]
+        print("fresh:", b)
+        print("after", data["first"], ":", a, repr(again.exc))
+        return 1 if (a != b or again.exc is not None or again.hung) else 0
     r = Run(data["version"], cur, data["overrides"], data["reject"])
     b = Run(data["version"], cur, data["overrides"], {}) if data["reject"] else None
     for s in r.sets:
